@@ -114,8 +114,12 @@ func c19Run(in []string) []string {
 		}
 		return v
 	}
+	nilArgs := in[0] == "CPN" // empty lists / no strategies are passed as nil slices
 	ids := func() hash.Events {
 		n := int(num())
+		if n == 0 && nilArgs {
+			return nil
+		}
 		hh := make(hash.Events, 0, n) // non-nil even when empty
 		for i := 0; i < n; i++ {
 			hh = append(hh, c19Hash(num()))
@@ -137,6 +141,10 @@ func c19Run(in []string) []string {
 	}
 	var log []c19Round
 	strategies := make([]ancestor.SearchStrategy, ns)
+	if ns == 0 && nilArgs {
+		strategies = nil
+	}
+	shared := map[string]ancestor.SearchStrategy{} // Q<seed>: ONE RandomStrategy object used at several positions
 	for i, sp := range specs {
 		var inner ancestor.SearchStrategy
 		switch sp[0] {
@@ -145,6 +153,14 @@ func c19Run(in []string) []string {
 		case 'R':
 			seed, _ := strconv.ParseInt(sp[1:], 10, 64)
 			inner = ancestor.NewRandomStrategy(rand.New(rand.NewSource(seed)))
+		case 'N': // NewRandomStrategy(nil): seeds itself from the clock
+			inner = ancestor.NewRandomStrategy(nil)
+		case 'Q':
+			if shared[sp] == nil {
+				seed, _ := strconv.ParseInt(sp[1:], 10, 64)
+				shared[sp] = ancestor.NewRandomStrategy(rand.New(rand.NewSource(seed)))
+			}
+			inner = shared[sp]
 		case 'I', 'X':
 			k, _ := strconv.Atoi(sp[1:])
 			inner = &c19Script{k: k, raw: sp[0] == 'X'}
@@ -200,6 +216,46 @@ func c19Run(in []string) []string {
 	}
 	vu.Stat("rounds=" + vu.Itoa(len(log)))
 	vu.Stat("res=" + status)
+	// sweep counters
+	if nilArgs {
+		vu.Stat("sweep.nil_args")
+	}
+	if ns == 0 {
+		vu.Stat("sweep.nstrat=0")
+	}
+	if len(options) == 0 {
+		vu.Stat("sweep.nopt=0")
+	}
+	if len(options) > 255 {
+		vu.Stat("sweep.nopt>255")
+	}
+	if len(options) > 65535 {
+		vu.Stat("sweep.nopt>65535")
+	}
+	if len(existing) > ns && ns > 0 {
+		vu.Stat("sweep.existing>nstrat")
+	}
+	if len(existing) == 0 {
+		vu.Stat("sweep.nexisting=0")
+	}
+	for i, r := range log {
+		if len(r.opts) == 1 && i < len(specs) && (specs[i][0] == 'R' || specs[i][0] == 'N' || specs[i][0] == 'Q') {
+			vu.Stat("sweep.random_with_1_option")
+		}
+		if len(r.opts) > 255 {
+			vu.Stat("sweep.choose_shown>255")
+		}
+	}
+	for _, m := range table {
+		switch {
+		case m == 0:
+			vu.Stat("sweep.metric=0")
+		case m == 1<<63:
+			vu.Stat("sweep.metric=2^63")
+		case m == math.MaxUint64:
+			vu.Stat("sweep.metric=maxuint64")
+		}
+	}
 	if len(log) < ns && status == "ok" {
 		vu.Stat("stopped_early")
 	}
@@ -207,7 +263,11 @@ func c19Run(in []string) []string {
 }
 
 func c19Emit(emit func(...string), existing, options []uint64, specs []string, table [][2]uint64) {
-	t := []string{"CP", vu.Itoa(len(existing))}
+	c19EmitOp(emit, "CP", existing, options, specs, table)
+}
+
+func c19EmitOp(emit func(...string), op string, existing, options []uint64, specs []string, table [][2]uint64) {
+	t := []string{op, vu.Itoa(len(existing))}
 	for _, x := range existing {
 		t = append(t, vu.U64(x))
 	}
@@ -280,6 +340,48 @@ func init() {
 							c19Emit(emit, ex, op, st, table)
 						}
 					}
+				}
+			}
+			// configuration / size sweep (always)
+			{
+				seqIDs := func(from, n int) []uint64 {
+					l := make([]uint64, n)
+					for i := range l {
+						l[i] = uint64(from + i)
+					}
+					return l
+				}
+				big := [][2]uint64{{3, 1 << 63}, {4, math.MaxUint64}, {5, 1<<63 - 1}, {6, 0}, {7, 1}, {8, math.MaxUint64}, {299, 1 << 63}}
+				for _, op := range []string{"CP", "CPN"} {
+					c19EmitOp(emit, op, nil, nil, nil, nil)                                    // nothing at all
+					c19EmitOp(emit, op, []uint64{1, 2}, nil, []string{"M", "R1"}, big)         // 0 options
+					c19EmitOp(emit, op, []uint64{1, 2}, seqIDs(0, 9), nil, big)                // 0 strategies
+					c19EmitOp(emit, op, nil, seqIDs(0, 9), []string{"M", "M", "R3", "N"}, big) // 0 existing
+					c19EmitOp(emit, op, seqIDs(0, 9), seqIDs(0, 9), []string{"M", "I1"}, big)  // every option is an existing parent
+				}
+				c19Emit(emit, seqIDs(100, 6), seqIDs(0, 9), []string{"M"}, big) // existing longer than strategies
+				c19Emit(emit, seqIDs(100, 12), seqIDs(0, 9), []string{"M", "R2"}, big)
+				c19Emit(emit, []uint64{1}, []uint64{5}, []string{"R7", "R8"}, big) // RandomStrategy with 1 option
+				c19Emit(emit, nil, []uint64{5, 5, 5}, []string{"N"}, big)
+				c19Emit(emit, nil, []uint64{4, 6}, []string{"Q1", "Q1", "Q1"}, big) // one strategy object at three positions
+				c19Emit(emit, nil, seqIDs(0, 20), []string{"Q9", "M", "Q9", "M", "Q9"}, big)
+				for _, no := range []int{255, 256, 257, 300} { // more than 255 options
+					c19Emit(emit, []uint64{1, 2, 3}, seqIDs(0, no), []string{"M", "I254", "I255", "R5", "M"}, big)
+				}
+				if tier == "thorough" { // more than 65535 options (model side is quadratic: one case)
+					c19Emit(emit, []uint64{1}, seqIDs(0, 66000), []string{"M"}, big)
+				}
+				// MetricStrategy directly, metrics at the uint64 / int64 sign boundary
+				for _, l := range [][]uint64{{3, 5}, {5, 3}, {4, 3}, {3, 4}, {3, 6}, {6, 3}, {4, 8}, {8, 4, 3}, {3, 3}, {6, 6}, {7, 3, 4}, {5, 6, 7}} {
+					t := []string{"MC", vu.Itoa(len(l))}
+					for _, x := range l {
+						t = append(t, vu.U64(x))
+					}
+					t = append(t, vu.Itoa(len(big)))
+					for _, kv := range big {
+						t = append(t, vu.U64(kv[0]), vu.U64(kv[1]))
+					}
+					emit(t...)
 				}
 			}
 			// MetricStrategy.Choose called directly: duplicates, the empty list, all-zero and tied metrics
